@@ -131,6 +131,7 @@ pub mod fetch {
     pub struct Messages;
     pub struct Attributes;
     pub struct Modifiers;
+    pub struct Complete;
 }
 
 pub struct FetchCommand<T> {
@@ -231,7 +232,7 @@ impl FetchCommand<fetch::Attributes> {
         self
     }
 
-    pub fn changed_since(mut self, seq: u64) -> FetchCommand<fetch::Modifiers> {
+    pub fn changed_since(mut self, seq: u64) -> FetchCommand<fetch::Complete> {
         self.args.push(b')');
         changed_since(&mut self.args, seq);
         FetchCommand {
@@ -279,10 +280,24 @@ impl From<FetchCommand<fetch::Modifiers>> for Command {
     }
 }
 
+impl From<FetchCommand<fetch::Complete>> for Command {
+    fn from(cmd: FetchCommand<fetch::Complete>) -> Command {
+        Command {
+            args: cmd.args,
+            next_state: None,
+        }
+    }
+}
+
 impl FetchCommand<fetch::Modifiers> {
-    pub fn changed_since(mut self, seq: u64) -> FetchCommand<fetch::Modifiers> {
+    // A command carries at most one list of fetch modifiers (RFC 4466), so
+    // adding it completes the command.
+    pub fn changed_since(mut self, seq: u64) -> FetchCommand<fetch::Complete> {
         changed_since(&mut self.args, seq);
-        self
+        FetchCommand {
+            args: self.args,
+            state: PhantomData,
+        }
     }
 }
 
